@@ -387,11 +387,10 @@ fn fri_faults(call: &FriCall, rng: &mut Rng, per_kind: usize) -> Vec<(String, Fr
         c.values[i] += Felt::ONE;
         out.push((format!("input-value[{i}]+1"), c));
     }
-    for i in sample_idx(rng, call.points.len(), per_kind.min(3)) {
-        let mut c = call.clone();
-        c.points[i] += Felt::ONE;
-        out.push((format!("query-point[{i}]+1"), c));
-    }
+    // NOTE: the decommitment `points` are computed by the verifier itself from the query indices
+    // (queries_to_points); they are not prover messages and "evaluation point" in C07 means the
+    // per-layer FRI challenge. A fault on `points` was tried and removed: with two queries in one
+    // coset the first query's point is legitimately unused (see DESIGN.md, false alarms).
     for i in 0..call.eval_points.len() {
         let mut c = call.clone();
         c.eval_points[i] += Felt::ONE;
@@ -521,29 +520,42 @@ pub fn c07(ctx: &mut Ctx) {
                     ("random-tail", random_poly(&mut rng, l))
                 }
             };
-            for untruncated in [false, true] {
+            for mode in ["truncated", "untruncated", "fitted"] {
+                let untruncated = mode == "untruncated";
                 let full_len = (coeffs.len() + (1 << shape.sum_steps()) - 1) >> shape.sum_steps();
                 let last_len = if untruncated { Some(full_len.max((1 << shape.log_last_bound) + 1)) } else { None };
-                let inst = build_instance(&mut rng, shape.clone(), coeffs.clone(), last_len, queries.clone());
-                let kind = if untruncated { format!("high-degree-untruncated:{tail_kind}") } else { format!("high-degree-truncated:{tail_kind}") };
-                // exact oracle for the truncated case: undetectable iff the truncated last layer
-                // agrees with the fully folded function at every final query point
+                let mut inst = build_instance(&mut rng, shape.clone(), coeffs.clone(), last_len, queries.clone());
+                let kind = format!("high-degree-{mode}:{tail_kind}");
+                // final-layer query points and the value of the fully folded function there
+                let n_inner = shape.steps.len() - 1;
+                let full = inst.prover.coeffs[n_inner].clone();
+                let mut pts: Vec<u64> = inst.q_idx.clone();
+                let mut log_size = shape.log_input;
+                for s in &shape.steps[1..] {
+                    pts = pts.iter().map(|q| q >> s).collect();
+                    pts.dedup();
+                    log_size -= s;
+                }
+                let w = models::subgroup_generator(log_size);
+                let ys: Vec<Felt> = pts.iter().map(|q| w.pow(models::bitrev(*q, log_size) as u128)).collect();
+                if mode == "fitted" {
+                    // adaptive last layer: interpolate the folded function at the first 2^bound
+                    // final query points (the most a polynomial below the bound can be made to fit)
+                    let k = (1usize << shape.log_last_bound).min(ys.len());
+                    if k > 32 {
+                        continue;
+                    }
+                    let xs = &ys[..k];
+                    let vals: Vec<Felt> = xs.iter().map(|y| models::eval_poly(&full, *y)).collect();
+                    let mut fitted = models::lagrange_interpolate(xs, &vals);
+                    fitted.resize(1usize << shape.log_last_bound, Felt::ZERO);
+                    inst.call.last_layer = fitted;
+                }
+                // exact oracle: undetectable iff the sent last layer agrees with the fully folded
+                // function at every final query point
                 let mut detectable = true;
                 if !untruncated {
-                    let n_inner = shape.steps.len() - 1;
-                    let full = &inst.prover.coeffs[n_inner];
-                    let mut pts: Vec<u64> = inst.q_idx.clone();
-                    let mut log_size = shape.log_input;
-                    for s in &shape.steps[1..] {
-                        pts = pts.iter().map(|q| q >> s).collect();
-                        pts.dedup();
-                        log_size -= s;
-                    }
-                    let w = models::subgroup_generator(log_size);
-                    detectable = pts.iter().any(|q| {
-                        let y = w.pow(models::bitrev(*q, log_size) as u128);
-                        models::eval_poly(full, y) != models::eval_poly(&inst.call.last_layer, y)
-                    });
+                    detectable = ys.iter().any(|y| models::eval_poly(&full, *y) != models::eval_poly(&inst.call.last_layer, *y));
                 }
                 let o = inst.call.run_verify();
                 ctx.stats.evaluations += 1;
@@ -552,6 +564,9 @@ pub fn c07(ctx: &mut Ctx) {
                 if !detectable {
                     ctx.stats.probe("high-degree-undetectable-at-queried-points");
                     continue;
+                }
+                if mode == "fitted" {
+                    ctx.stats.probe("high-degree-fitted-to-first-queries-but-detectable");
                 }
                 if o.is_accept() {
                     let class = format!("C07|fault-accepted|{}", kind.split(':').next().unwrap());
